@@ -273,6 +273,17 @@ def pathNameErrs (v : View) : List Msg :=
 
 def defRef (name : String) : String := "#/definitions/" ++ name
 
+/-- spec.go (alias chase of the ancestry walk, after the `fix:` commit): a chain of bare references that leads back to one
+    of its own members; returns the reference at which the chain closes -/
+def aliasLoop (defs : String → Option Schema) : Nat → Schema → List String → Option String
+  | 0, _, _ => none
+  | fuel + 1, s, seen =>
+    if s.base.ref == "" then none
+    else if seen.contains s.base.ref then some s.base.ref
+    else match defs s.base.ref with
+      | some t => aliasLoop defs fuel t (s.base.ref :: seen)
+      | none => none
+
 /-- the first allOf member whose walk meets a followed reference again (spec.go:345-357: the loop returns at the first
     non-empty answer); the second component collects "unresolved reference seen" -/
 def firstHit (f : Schema → List String × Bool) : List Schema → List String × Bool
@@ -291,6 +302,9 @@ def circAnc (defs : String → Option Schema) : Nat → String → Schema → Li
   | 0, _, _, _ => ([], false)
   | fuel + 1, nm, sch, path =>
     if sch.base.ref == "" && sch.allOf.isEmpty then ([], false) else
+    match aliasLoop defs 64 sch [] with
+    | some r => ([r], false)      -- the references followed from this node never reach a schema
+    | none =>
     match chase defs 64 sch with
     | none => ([], true)
     | some schc =>
